@@ -151,6 +151,16 @@ class RigidCluster(Spheres):
     def scatterers(self):
         return self.spheres.rotated(self.rotation).translated(self.translation).scatterers
 
+    def translated(self, coord1, coord2=None, coord3=None):
+        # scatterers is computed and cannot be replaced on a copy; move the
+        # equivalent Spheres (which is also what from_parameters returns)
+        return self.spheres.rotated(self.rotation).translated(
+            self.translation).translated(coord1, coord2, coord3)
+
+    def rotated(self, ang1, ang2=None, ang3=None):
+        return self.spheres.rotated(self.rotation).translated(
+            self.translation).rotated(ang1, ang2, ang3)
+
     @property
     def _parameters(self):
         d = self.spheres._parameters
